@@ -612,15 +612,18 @@ class GMMMachine(BaseEstimator):
         if int(version_major) >= 1:
             if hdf5.attrs["writer_class"] != str(cls):
                 logger.warning(f"{hdf5.attrs['writer_class']} is not {cls}.")
-            if hdf5["trainer"] == "map" and ubm is None:
+            trainer = hdf5["trainer"][()]
+            if isinstance(trainer, bytes):  # h5py returns stored str as bytes
+                trainer = trainer.decode()
+            if trainer == "map" and ubm is None:
                 raise ValueError(
                     "The UBM is needed when loading a MAP machine."
                 )
             self = cls(
                 n_gaussians=hdf5["n_gaussians"][()],
-                trainer=hdf5["trainer"][()],
+                trainer=trainer,
                 ubm=ubm,
-                convergence_threshold=1e-5,
+                convergence_threshold=hdf5["convergence_threshold"][()],
                 max_fitting_steps=hdf5["max_fitting_steps"][()],
                 weights=hdf5["weights"][...],
                 k_means_trainer=None,
@@ -630,10 +633,12 @@ class GMMMachine(BaseEstimator):
             )
             gaussians_group = hdf5["gaussians"]
             self.means = gaussians_group["means"][...]
-            self.variances = gaussians_group["variances"][...]
+            # thresholds first: the saved variances already respect them and
+            # must not be clamped with the constructor's default threshold
             self.variance_thresholds = gaussians_group["variance_thresholds"][
                 ...
             ]
+            self.variances = gaussians_group["variances"][...]
         else:  # Legacy file version
             logger.info("Loading a legacy HDF5 machine file.")
             n_gaussians = hdf5["m_n_gaussians"][()][0]
@@ -658,7 +663,10 @@ class GMMMachine(BaseEstimator):
 
     def load(self, hdf5):
         """Overwrites the current state with those in an `HDF5File` object."""
-        new_self = self.from_hdf5(hdf5)
+        # a MAP machine needs its UBM to be rebuilt: reuse the one of this object
+        new_self = self.from_hdf5(
+            hdf5, ubm=self.ubm if self.trainer == "map" else None
+        )
         self.__dict__.update(new_self.__dict__)
 
     def save(self, hdf5):
